@@ -1397,6 +1397,15 @@ func (e *Exec) binop(fr *Frame, ins ssa.Instruction, op token.Token, a, b Value,
 				}
 				return tf.Wrap(tf.IntB(r), bits, signed)
 			}
+			// x | y (or x ^ y) where one operand is a multiple of 2^c and the other lies in [0, 2^c): disjoint bits, a sum
+			if op == token.OR || op == token.XOR {
+				for _, pr := range [][2]*Term{{x, y}, {y, x}} {
+					hi, lo := pr[0], pr[1]
+					if c := pow2Multiple(hi, 0); c > 0 && lo.Lo != nil && lo.Hi != nil && lo.Lo.Sign() >= 0 && lo.Hi.BitLen() <= c {
+						return tf.Wrap(tf.Add(hi, lo), bits, signed)
+					}
+				}
+			}
 			// symbolic operands with a small non-negative range: bit by bit
 			if k, ok := smallBits(x, y); ok {
 				res := tf.Int(0)
@@ -1431,6 +1440,48 @@ func (e *Exec) binop(fr *Frame, ins ssa.Instruction, op token.Token, a, b Value,
 	}
 	e.unsupported("binary op %s on %s in %s", op, t, fr.fn)
 	return nil
+}
+
+// pow2Multiple: the largest c (capped at 62) such that t is syntactically a multiple of 2^c.
+func pow2Multiple(t *Term, depth int) int {
+	if depth > 16 {
+		return 0
+	}
+	tz := func(i *big.Int) int {
+		if i.Sign() == 0 {
+			return 62
+		}
+		n := int(new(big.Int).Abs(i).TrailingZeroBits())
+		if n > 62 {
+			n = 62
+		}
+		return n
+	}
+	switch t.Op {
+	case "int":
+		return tz(t.I)
+	case "*":
+		a, b := pow2Multiple(t.Args[0], depth+1), pow2Multiple(t.Args[1], depth+1)
+		if a+b > 62 {
+			return 62
+		}
+		return a + b
+	case "+", "-":
+		a, b := pow2Multiple(t.Args[0], depth+1), pow2Multiple(t.Args[1], depth+1)
+		if a < b {
+			return a
+		}
+		return b
+	case "neg":
+		return pow2Multiple(t.Args[0], depth+1)
+	case "wraps", "wrapu":
+		c := pow2Multiple(t.Args[0], depth+1)
+		if w := int(t.I.Int64()); c > w {
+			c = w
+		}
+		return c
+	}
+	return 0
 }
 
 // smallBits: both operands are known to lie in [0, 2^k) for some k <= 16.
